@@ -216,9 +216,15 @@ func (s *FastModularNetworkSolver) recursiveActivateNode(currentNode int) (res b
 	// This is no longer being calculated (for cycle detection)
 	s.inActivation[currentNode] = false
 
+	signal := s.neuronSignalsBeingProcessed[currentNode]
+	if s.biasNeuronCount > 0 {
+		// append BIAS value to the signal if appropriate
+		signal += s.biasList[currentNode]
+	}
+
 	// Set this signal after running it through the activation function
 	if s.neuronSignals[currentNode], err = neatmath.NodeActivators.ActivateByType(
-		s.neuronSignalsBeingProcessed[currentNode], nil,
+		signal, nil,
 		s.activationFunctions[currentNode]); err != nil {
 		// failed to activate
 		res = false
